@@ -44,9 +44,16 @@ def _brute(T, K, cost, beta):
     return best
 
 
-def _run_kernel(T, K, form, cost, beta):
+def _table(T, K, cost):
+    return np.array([[float(v) for v in row] for row in cost], dtype=np.float64).reshape(T, K)
+
+
+def _run_kernel(T, K, form, cost, beta, table=None, readonly=False):
     from fast_ticc import cluster_label_assignment as cla
-    table = np.array([[float(v) for v in row] for row in cost], dtype=np.float64).reshape(T, K)
+    if table is None:
+        table = _table(T, K, cost)
+    if readonly:
+        table.flags.writeable = False
     b = np.array([float(v) for v in beta]) if form in ('vector', 'both') else float(beta[0])
     path, c = cla.assign_point_cluster_labels(table, b)
     return [int(p) for p in path], float(c)
@@ -56,8 +63,15 @@ def replay(w):
     T, K, form, cost, beta = _inputs(w)
     observed = {}
     reproduced = False
+    # the harness hands the kernel a caller-owned table: read-only in the single-call configurations,
+    # one writable table shared by both calls in the scalar-vs-vector configuration
+    direct = 'll_0_0' not in w['inputs']
+    table = _table(T, K, cost)
+    keep = table.copy()
     try:
-        path, c = _run_kernel(T, K, form, cost, beta)
+        if form == 'both':
+            p_scalar, c_scalar = _run_kernel(T, K, 'scalar', cost, beta, table=table)
+        path, c = _run_kernel(T, K, form, cost, beta, table=table, readonly=direct and form != 'both')
     except Exception as exc:
         return {'reproduced': True, 'signature': 'kernel-raises', 'observed': {'raised': repr(exc)}}
     best = _brute(T, K, cost, beta)
@@ -76,10 +90,13 @@ def replay(w):
     else:
         sig = None
     if form == 'both' and not reproduced:
-        p2, c2 = _run_kernel(T, K, 'scalar', cost, beta)
-        observed['scalar_form'] = {'path': p2, 'cost': c2}
-        if p2 != path or not close(c2, c):
+        observed['scalar_form'] = {'path': p_scalar, 'cost': c_scalar}
+        if p_scalar != path or not close(c_scalar, c):
             reproduced, sig = True, 'scalar-and-vector-forms-differ'
+    if not np.array_equal(table.view(np.uint64), keep.view(np.uint64)):
+        observed['table_after_call'] = table.tolist()
+        if form == 'both':
+            reproduced, sig = True, 'kernel-overwrites-the-callers-cost-table'
     return {'reproduced': reproduced, 'signature': sig, 'observed': observed,
             'jit_disabled': os.environ.get('NUMBA_DISABLE_JIT', '0')}
 
